@@ -6,7 +6,7 @@ import struct
 import tempfile
 import zlib
 
-from ..core import Tally  # noqa: F401
+from ..core import Tally, vary_buf  # noqa: F401
 from .. import s2c, tlc
 from .bloomfam import GEOM, KEYMAP, gen_tables, make_hash, strategy_fn, strategy_table
 
@@ -91,6 +91,7 @@ class Ctx:
     def reload(self, f, hf, channel):
         if channel == "bytes":
             b = bytes(f)
+            b = vary_buf(b)
             return self.R.frombytes(b, max_queue_size=self.qmax, hash_function=hf) if self.rot else self.E.frombytes(b, hash_function=hf)
         path = os.path.join(self.tmp, "rt.ebf")
         if channel == "fileobj":
